@@ -443,6 +443,15 @@ func (r *c17Renderer) bodyStmts(i int, lit bool, edges []int) []string {
 	var ps []piece
 	for _, j := range edges {
 		ps = append(ps, piece{c17Hash(r.seed, fmt.Sprintf("o|e|%d|%d", i, j)), r.edgeStmt(i, j, lit)})
+		// a third of the references is mentioned twice: the sorter's dependency lists are
+		// sorted and de-duplicated in place, repeated names exercise that bookkeeping
+		if c17Pick(r.seed, fmt.Sprintf("dup|%d|%d", i, j), 3) == 0 {
+			again := "_ = " + r.term(j)
+			if r.rec.isCyc(i, j) {
+				again = "if r < 0 {\n" + again + "\n}"
+			}
+			ps = append(ps, piece{c17Hash(r.seed, fmt.Sprintf("o|e2|%d|%d", i, j)), again})
+		}
 	}
 	for si, s := range r.sh {
 		if !r.on[si] || s.From != i {
@@ -550,7 +559,13 @@ func c17Render(rec *c17Rec, ch *c17Choice) *c17Src {
 		if i-1 < len(ch.NameRank) {
 			rank = ch.NameRank[i-1]
 		}
-		r.names[i] = fmt.Sprintf("%c%s%d%s", 'a'+rank-1, c17KindLetter[rec.Decls[i-1].Kind], i, ch.Sfx)
+		// half of the renderings use names that sort after the predeclared identifiers they
+		// mention (int, len, interface): name order is what the sorter's lists are sorted by
+		base := 'a'
+		if c17Pick(ch.Seed, "hi", 2) == 1 {
+			base = 'p'
+		}
+		r.names[i] = fmt.Sprintf("%c%s%d%s", base+rune(rank)-1, c17KindLetter[rec.Decls[i-1].Kind], i, ch.Sfx)
 	}
 	r.sh = c17AllShadows(rec, ch)
 	r.on = make([]bool, len(r.sh))
